@@ -140,6 +140,44 @@ def run(res, ctx):
                                 res.break_("correspondence:" + k, {"variant": vname, "file_hex": data.hex(), "impl": m.get(k), "model": mm.get(k)})
                     else:
                         res.count("counts-not-compared(unmodelled id present)")
+        # ---- totals over files whose DISCOVERED path starts with an underscore / a dot / a digit (relative directory targets are walked as given, so
+        #      `bandit -r _vendor app` yields keys such as '_vendor/lib.py' next to the bookkeeping key '_totals': seeded change C12-m3 skipped every key
+        #      starting with '_' when adding up)
+        from bandit.core import config as b_config, manager as b_manager
+        base = os.path.join(scratch.root, "relroot")
+        files = {"_vendor/lib.py": "import pickle\nassert x  # nosec\n", "__pypackages__/a/x.py": "import subprocess\nsubprocess.Popen(c, shell=True)\n",
+                 "app/main.py": "password = 'pw'\neval(x)\n", "_totals/odd.py": "exec(c)\n", ".hidden/h.py": "import telnetlib\n", "9lives/n.py": "assert y\n"}
+        for rel, src in files.items():
+            os.makedirs(os.path.dirname(os.path.join(base, rel)), exist_ok=True)
+            with open(os.path.join(base, rel), "w") as f:
+                f.write(src)
+        old = os.getcwd()
+        try:
+            os.chdir(base)
+            for targets in (["_vendor", "app"], ["__pypackages__", "_totals", ".hidden", "9lives", "app"], ["."], ["_vendor/lib.py", "app/main.py"]):
+                mgr = b_manager.BanditManager(b_config.BanditConfig(), "file")
+                mgr.discover_files(list(targets), True, "")
+                mgr.run_tests()
+                C.take_log()
+                data = mgr.metrics.data
+                blocks = {k: v for k, v in data.items() if k in mgr.files_list}
+                res.case(("relative-targets", tuple(targets)), bool(mgr.results))
+                res.count("relative-targets")
+                if set(blocks) != set(mgr.files_list) or "_totals" not in data:
+                    res.violation("a scanned file has no metrics block (or the totals block is missing)", {"targets": targets, "files": mgr.files_list, "blocks": sorted(data)})
+                    continue
+                tot = data["_totals"]
+                for k in sorted(set(tot) | {k for b in blocks.values() for k in b}):
+                    ssum = sum(b.get(k, 0) for b in blocks.values())
+                    if tot.get(k, 0) != ssum:
+                        res.violation("a total differs from the sum over files", {"targets": targets, "files": mgr.files_list, "key": k, "total": tot.get(k), "sum": ssum})
+                for crit, attr in (("SEVERITY", "severity"), ("CONFIDENCE", "confidence")):
+                    for rank in RANKS:
+                        want = sum(1 for r in mgr.results if getattr(r, attr) == rank)
+                        if tot.get(f"{crit}.{rank}", 0) != want:
+                            res.violation("a total count differs from the number of findings of that rank", {"targets": targets, "key": f"{crit}.{rank}", "total": tot.get(f"{crit}.{rank}"), "findings": want})
+        finally:
+            os.chdir(old)
     finally:
         scratch.close()
         if d is not None:
